@@ -1,6 +1,11 @@
 import PhyloModel.Matrix.Phylip
 import PhyloModel.Matrix.StoreLemmas
 import PhyloModel.Matrix.PhylipRT
+import PhyloModel.Matrix.PhylipRows
+import PhyloModel.Matrix.PhylipTotal
+import PhyloModel.Matrix.PhylipStrictRT
+import PhyloModel.Matrix.PhylipStrictSym
+import PhyloModel.Matrix.PhylipStrictAccept
 /-! # C14 — Phylip round trip is lossless; the parsers are total and strict
 
 `PHY.toPhylip`, `PHY.fromPhylipTril`, `PHY.fromPhylipStrict` mirror `to_phylip`, `from_phylip_tril`,
@@ -28,55 +33,8 @@ theorem strict_go (size : Nat) (square : Bool) :
       strictGo cd size square ls i names rows = .ok (names', rows') →
       names'.length = i + ls.length ∧ rows'.length = i + ls.length ∧ (ls ≠ [] → i + ls.length ≤ size) ∧
       (∀ k (r : List L), rows'[k]? = some r → (if square then r.length = size else r.length = k) ∧
-          (square = true → cd.isZero (r.getD k default) = true)) := by
-  intro ls
-  induction ls with
-  | nil =>
-    intro i names rows names' rows' hn hr hrows h
-    simp only [strictGo, PRes.ok.injEq, Prod.mk.injEq] at h
-    obtain ⟨rfl, rfl⟩ := h
-    exact ⟨by simpa using hn, by simpa using hr, by simp, hrows⟩
-  | cons l ls ih =>
-    intro i names rows names' rows' hn hr hrows h
-    simp only [strictGo] at h
-    split at h
-    · cases h
-    · next hlt =>
-      split at h
-      · next name ds hrow =>
-        split at h
-        · cases h
-        · next hlen =>
-          split at h
-          · cases h
-          · next hdiag =>
-            have hlen' : (if square then ds.length = size else ds.length = i) := by
-              cases square <;> simp_all
-            have := ih (i + 1) (names ++ [String.ofList name]) (rows ++ [ds]) names' rows'
-              (by simp [hn]) (by simp [hr])
-              (by
-                intro k r hk
-                by_cases hki : k < rows.length
-                · rw [List.getElem?_append_left hki] at hk; exact hrows k r hk
-                · have hk' : k = rows.length := by
-                    have := List.getElem?_eq_some_iff.mp hk
-                    obtain ⟨hb, _⟩ := this
-                    simp at hb; omega
-                  subst hk'
-                  simp at hk; subst hk
-                  rw [hr]
-                  refine ⟨hlen', ?_⟩
-                  intro hsq; subst hsq
-                  simpa using hdiag)
-              h
-            obtain ⟨h1, h2, h3, h4⟩ := this
-            refine ⟨by simp at h1 ⊢; omega, by simp at h2 ⊢; omega, ?_, h4⟩
-            intro _
-            by_cases hls : ls = []
-            · subst hls; simp; omega
-            · have := h3 hls; simp; omega
-      · cases h
-      · cases h
+          (square = true → cd.isZero (r.getD k default) = true)) :=
+  PHY.strict_go cd size square
 
 /-- **strictness**: a text accepted by the strict parser has exactly as many rows as its declared size, every
     row has exactly the required number of distances (`size` for square, the row number for triangular), and
@@ -107,11 +65,8 @@ theorem strict_accepts_only_well_shaped (text : Text) (square : Bool) (m : Mat L
       · cases h
       · cases h
 
-theorem readRow_no_panic (row : Text) (limit : Nat) : readRow cd row limit ≠ .panic := by
-  unfold readRow
-  split
-  · simp
-  · split <;> simp
+theorem readRow_no_panic (row : Text) (limit : Nat) : readRow cd row limit ≠ .panic :=
+  PHY.readRow_no_panic cd row limit
 
 theorem trilGo_no_panic : ∀ (ls : List Text) (i : Nat) (taxa : List String) (vals : List L),
     trilGo cd ls i taxa vals ≠ .panic
@@ -139,21 +94,9 @@ theorem tril_total (text : Text) : fromPhylipTril cd text ≠ .panic := by
       · simp
       · next h => exact absurd h (trilGo_no_panic cd _ _ _ _)
 
-theorem strictGo_no_panic (size : Nat) (square : Bool) : ∀ (ls : List Text) (i : Nat) (names : List String)
-    (rows : List (List L)), strictGo cd size square ls i names rows ≠ .panic
-  | [], _, _, _ => by simp [strictGo]
-  | l :: ls, i, names, rows => by
-    simp only [strictGo]
-    split
-    · simp
-    · split
-      · split
-        · simp
-        · split
-          · simp
-          · exact strictGo_no_panic size square ls _ _ _
-      · simp
-      · next h => exact absurd h (readRow_no_panic cd l (size + 1))
+theorem strictGo_no_panic (size : Nat) (square : Bool) (ls : List Text) (i : Nat) (names : List String)
+    (rows : List (List L)) : strictGo cd size square ls i names rows ≠ .panic :=
+  PHY.strictGo_no_panic cd size square ls i names rows
 
 /-- text without any line, or whose first line is not an unsigned integer, is rejected by every entry point -/
 theorem header_required (text : Text) (square : Bool)
@@ -193,5 +136,169 @@ example : Laws ({ showL := fun b => if b then ['1'] else ['0'],
   constructor
   · intro x; cases x <;> simp
   · intro x; cases x <;> exact ⟨by simp, by intro c hc; simp at hc; subst hc; decide⟩
+
+
+/-! ## C14, strict parser (positional fill) — totality, round trip in both layouts, symmetry clause
+
+`from_phylip_strict(text, square)` (model `PHY.fromPhylipStrict`) fills the matrix cell by cell BY POSITION
+(`PHY.fillCell` over `PHY.cellsOf rows`); row labels play no role in the fill, so nothing below assumes
+that the names are pairwise different.
+
+* `strict_total`: for EVERY text and both layouts the result is a matrix or an error; the indexing
+  `matrix.matrix[idx]` is never out of range.
+* `strict_roundtrip`: `from_phylip_strict (to_phylip m sq) sq = m` for both layouts when the names are
+  non-empty and whitespace-free and (square layout only) every stored value equals itself (no NaN);
+  `strict_roundtrip_tril`: the triangular layout needs only the two `Display`/`FromStr` laws.
+* `strict_square_symmetric`, `strict_rejects_asymmetric`: an accepted square text is symmetric and has a
+  zero diagonal, and the result stores exactly the parsed upper triangle; an asymmetric text is answered with an
+  error.  `strict_accepts_iff`: the exact acceptance criterion. -/
+
+open PHY MXS MX Tri
+
+variable {L : Type} [Inhabited L] (cd : Codec L)
+
+/-- **totality of the strict parser** -/
+theorem strict_total (text : Text) (square : Bool) : fromPhylipStrict cd text square ≠ .panic :=
+  PHY.strict_total cd text square
+
+/-- **strict round trip, both layouts** (names may repeat) -/
+theorem strict_roundtrip (hl : Laws2 cd) (m : Mat L) (square : Bool) (hnames : ∀ nm ∈ m.taxa, PH.Word nm.toList)
+    (hsz : m.v.size = T2 m.taxa.length) (hn : m.taxa.length < 2 ^ 64)
+    (hrefl : square = true → ∀ x ∈ m.v.toList, cd.numEq x x = true) :
+    fromPhylipStrict cd (toPhylip cd m square) square = .ok m :=
+  PHY.strict_roundtrip cd hl m square hnames hsz hn hrefl
+
+/-- the triangular layout through the strict parser: no condition on the symmetry test or on zero -/
+theorem strict_roundtrip_tril (hl : Laws cd) (m : Mat L) (hnames : ∀ nm ∈ m.taxa, PH.Word nm.toList)
+    (hsz : m.v.size = T2 m.taxa.length) (hn : m.taxa.length < 2 ^ 64) :
+    fromPhylipStrict cd (toPhylip cd m false) false = .ok m :=
+  PHY.strict_roundtrip_tril cd hl m hnames hsz hn
+
+/-- **strictness, symmetry clause**: every accepted square text -/
+theorem strict_square_symmetric (text : Text) (m : Mat L) (h : fromPhylipStrict cd text true = .ok m) :
+    ∃ (first : Text) (rest : List Text) (size : Nat),
+      PH.lines text = first :: rest ∧ parseUsize first = some size ∧ rest.length = size ∧
+      (∀ l ∈ rest, readRow cd l (size + 1) = .ok (parseLine cd size l)) ∧
+      m.taxa = parsedNames cd size rest ∧ m.v.size = T2 size ∧
+      (∀ i, i < size → ((parsedRows cd size rest).getD i []).length = size) ∧
+      (∀ i, i < size → cd.isZero (entry (parsedRows cd size rest) i i) = true) ∧
+      (∀ i j, i < j → j < size →
+        cd.numEq (entry (parsedRows cd size rest) i j) (entry (parsedRows cd size rest) j i) = true) ∧
+      (∀ i j, i < j → j < size → m.v.getD (cell i j) default = entry (parsedRows cd size rest) i j) :=
+  PHY.strict_square_symmetric cd text m h
+
+/-- every accepted triangular text: the result stores exactly the parsed rows -/
+theorem strict_tril_stored (text : Text) (m : Mat L) (h : fromPhylipStrict cd text false = .ok m) :
+    ∃ (first : Text) (rest : List Text) (size : Nat),
+      PH.lines text = first :: rest ∧ parseUsize first = some size ∧ rest.length = size ∧
+      (∀ l ∈ rest, readRow cd l (size + 1) = .ok (parseLine cd size l)) ∧
+      m.taxa = parsedNames cd size rest ∧ m.v.size = T2 size ∧
+      (∀ i, i < size → ((parsedRows cd size rest).getD i []).length = i) ∧
+      (∀ i j, j < i → i < size → m.v.getD (cell i j) default = entry (parsedRows cd size rest) i j) :=
+  PHY.strict_tril_stored cd text m h
+
+/-- **asymmetric input is rejected** -/
+theorem strict_rejects_asymmetric (text first : Text) (rest : List Text) (size : Nat)
+    (hlines : PH.lines text = first :: rest) (hsize : parseUsize first = some size)
+    (i j : Nat) (hij : i < j) (hj : j < size)
+    (hasym : cd.numEq (entry (parsedRows cd size rest) i j) (entry (parsedRows cd size rest) j i) = false) :
+    ∃ k, fromPhylipStrict cd text true = .err k :=
+  PHY.strict_rejects_asymmetric cd text first rest size hlines hsize i j hij hj hasym
+
+/-- **acceptance criterion**: exactly the well-shaped, zero-diagonal, symmetric texts are accepted -/
+theorem strict_accepts_iff (text first : Text) (rest : List Text) (size : Nat) (square : Bool)
+    (hlines : PH.lines text = first :: rest) (hsize : parseUsize first = some size) :
+    (∃ m, fromPhylipStrict cd text square = .ok m) ↔
+      rest.length = size ∧
+      (∀ l ∈ rest, ∃ p, readRow cd l (size + 1) = .ok p) ∧
+      (∀ k, k < size → ((parsedRows cd size rest).getD k []).length = if square then size else k) ∧
+      (square = true →
+        (∀ k, k < size → cd.isZero (entry (parsedRows cd size rest) k k) = true) ∧
+        (∀ i j, i < j → j < size →
+          cd.numEq (entry (parsedRows cd size rest) i j) (entry (parsedRows cd size rest) j i) = true)) :=
+  PHY.strict_accepts_iff cd text first rest size square hlines hsize
+
+/-! ### non-vacuity and sharpness of the hypotheses, on a two-valued entry type -/
+
+def bc : Codec Bool := { showL := fun b => if b then ['1'] else ['0'], parseL := fun t => if t = ['1'] then some true else if t = ['0'] then some false else none, numEq := fun a b => a == b, isZero := fun b => !b, zero := false }
+
+theorem bc_laws : Laws bc := by
+  constructor
+  · intro x; cases x <;> simp [bc]
+  · intro x; cases x <;> exact ⟨by simp [bc], by intro c hc; simp [bc] at hc; subst hc; decide⟩
+
+theorem bc_laws2 : Laws2 bc := ⟨bc_laws, rfl⟩
+
+def m3 : Mat Bool := { taxa := ["a", "b", "c"], v := #[true, false, true] }
+/-- a matrix with a repeated label -/
+def mdup : Mat Bool := { taxa := ["a", "b", "a"], v := #[true, false, true] }
+
+/-- what a result looks like (for `decide`) -/
+def view (r : PRes (Mat Bool)) : Option (List String × List Bool) ⊕ String :=
+  match r with
+  | .ok m => .inl (some (m.taxa, m.v.toList))
+  | .err k => .inr k
+  | .panic => .inl none
+
+/-- the hypotheses of `strict_roundtrip` hold for a three-taxon matrix with non-zero entries, and for one with
+    a repeated label -/
+example : Laws2 bc ∧ (∀ nm ∈ m3.taxa, PH.Word nm.toList) ∧ m3.v.size = T2 m3.taxa.length ∧
+    m3.taxa.length < 2 ^ 64 ∧ (∀ x ∈ m3.v.toList, bc.numEq x x = true) ∧
+    (∀ nm ∈ mdup.taxa, PH.Word nm.toList) ∧ mdup.v.size = T2 mdup.taxa.length := by
+  refine ⟨bc_laws2, ?_, by decide, by decide, ?_, ?_, by decide⟩
+  · intro nm h
+    simp only [m3, List.mem_cons, List.not_mem_nil, or_false] at h
+    rcases h with rfl | rfl | rfl <;> exact ⟨by decide, by decide⟩
+  · intro x _; cases x <;> rfl
+  · intro nm h
+    simp only [mdup, List.mem_cons, List.not_mem_nil, or_false] at h
+    rcases h with rfl | rfl | rfl <;> exact ⟨by decide, by decide⟩
+
+/-- ... and the model computes the conclusion on them (both layouts): repeated labels round-trip -/
+example : view (fromPhylipStrict bc (toPhylip bc m3 true) true) = .inl (some (m3.taxa, m3.v.toList)) ∧
+    view (fromPhylipStrict bc (toPhylip bc m3 false) false) = .inl (some (m3.taxa, m3.v.toList)) ∧
+    view (fromPhylipStrict bc (toPhylip bc mdup true) true) = .inl (some (mdup.taxa, mdup.v.toList)) ∧
+    view (fromPhylipStrict bc (toPhylip bc mdup false) false) = .inl (some (mdup.taxa, mdup.v.toList)) := by
+  decide
+
+/-- the two-taxon matrix with twice the same label, which the by-name fill could not read back -/
+def maa : Mat Bool := { taxa := ["a", "a"], v := #[true] }
+example : view (fromPhylipStrict bc (toPhylip bc maa true) true) = .inl (some (["a", "a"], [true])) ∧
+    view (fromPhylipStrict bc (toPhylip bc maa false) false) = .inl (some (["a", "a"], [true])) := by decide
+
+/-- an accepted square text (hypothesis of `strict_square_symmetric`) -/
+example : ∃ m, fromPhylipStrict bc "3\na 0 1 0\nb 1 0 1\nc 0 1 0\n".toList true = .ok m := by
+  have hv : view (fromPhylipStrict bc "3\na 0 1 0\nb 1 0 1\nc 0 1 0\n".toList true)
+      = .inl (some (["a", "b", "c"], [true, false, true])) := by decide
+  cases hr : fromPhylipStrict bc "3\na 0 1 0\nb 1 0 1\nc 0 1 0\n".toList true with
+  | ok m => exact ⟨m, rfl⟩
+  | err k => rw [hr] at hv; simp [view] at hv
+  | panic => rw [hr] at hv; simp [view] at hv
+
+/-- the hypotheses of `strict_rejects_asymmetric` are satisfiable: `d(a,b) = 1` but `d(b,a) = 0` -/
+example : PH.lines "2\na 0 1\nb 0 0\n".toList = "2".toList :: ["a 0 1".toList, "b 0 0".toList] ∧
+    parseUsize "2".toList = some 2 ∧
+    bc.numEq (entry (parsedRows bc 2 ["a 0 1".toList, "b 0 0".toList]) 0 1)
+      (entry (parsedRows bc 2 ["a 0 1".toList, "b 0 0".toList]) 1 0) = false := by decide
+
+example : view (fromPhylipStrict bc "2\na 0 1\nb 0 0\n".toList true) = .inr "NonSymmetric" := by decide
+
+/-- the asymmetric text with the labels `a b a` that the by-name fill used to accept (entry (1,2) is 1, entry
+    (2,1) is 0) is now rejected; its symmetric variant is accepted -/
+example : view (fromPhylipStrict bc "3\na 0 1 0\nb 1 0 1\na 0 0 0\n".toList true) = .inr "NonSymmetric" ∧
+    view (fromPhylipStrict bc "3\na 0 1 0\nb 1 0 1\na 0 1 0\n".toList true)
+      = .inl (some (["a", "b", "a"], [true, false, true])) := by decide
+
+/-- direction of the symmetry test: the stored entry above the diagonal is the FIRST argument.  With the test
+    `numEq a b := a || !b`, upper 1 / lower 0 is accepted and upper 0 / lower 1 is rejected -/
+def bd : Codec Bool := { bc with numEq := fun a b => a || !b }
+example : view (fromPhylipStrict bd "2\na 0 1\nb 0 0\n".toList true) = .inl (some (["a", "b"], [true])) ∧
+    view (fromPhylipStrict bd "2\na 0 0\nb 1 0\n".toList true) = .inr "NonSymmetric" := by decide
+
+/-- necessity of "every value equals itself" for the square layout: with a symmetry test that fails on equal
+    values (NaN) the square round trip is rejected, the triangular one is not -/
+def bn : Codec Bool := { bc with numEq := fun _ _ => false }
+example : view (fromPhylipStrict bn (toPhylip bn m3 true) true) = .inr "NonSymmetric" ∧
+    view (fromPhylipStrict bn (toPhylip bn m3 false) false) = .inl (some (m3.taxa, m3.v.toList)) := by decide
 
 end C14
